@@ -98,6 +98,9 @@ impl Game {
                     if row == 0 {
                         bail!("Too many rows");
                     }
+                    if col != 8 {
+                        bail!("Invalid row length");
+                    }
                     col = 0;
                     row -= 1;
                 }
@@ -123,6 +126,9 @@ impl Game {
                 }
                 empty_count if character.is_ascii_digit() => {
                     let count = (empty_count as u8 - b'0') as i8;
+                    if count < 1 || count > 8 - col {
+                        bail!("Invalid empty count");
+                    }
                     for i in 0..count {
                         let position = Position::new_assert(row, col + i);
                         past_hashes[position.as_usize()] = zobrist::EMPTY_PLACE;
@@ -143,9 +149,9 @@ impl Game {
             bail!("Missing player");
         };
 
-        let current_player = match next_player.chars().next().unwrap() {
-            'w' => Player::White,
-            'b' => Player::Black,
+        let current_player = match next_player {
+            "w" => Player::White,
+            "b" => Player::Black,
             _ => bail!("Invalid player"),
         };
 
@@ -175,10 +181,15 @@ impl Game {
         };
 
         if en_passant != "-" {
-            let col = en_passant.chars().nth(0).unwrap();
-            state.set_en_passant(((col as u8) - b'a') as i8);
-            if !(0..8).contains(&state.en_passant()) {
-                bail!("Invalid en passant square");
+            let expected_row = match current_player {
+                Player::White => b'6',
+                Player::Black => b'3',
+            };
+            match en_passant.as_bytes() {
+                &[col @ b'a'..=b'h', row] if row == expected_row => {
+                    state.set_en_passant((col - b'a') as i8);
+                }
+                _ => bail!("Invalid en passant square"),
             }
         }
 
